@@ -237,6 +237,9 @@ C06f(line, pre) ==
          \cup (IF Starved(line, pre, g) THEN {"C06:starve"} ELSE {}) \cup (IF Aged(line, pre, g) THEN {"C06:max-age"} ELSE {})
         : g \in Groups(pre)}
   \cup UNION {IF C06AppliesF(line, pre, g) /\ Bands(pre, g) \cap {"fast", "slow"} # {} THEN {"C06:taint-band-with-failing-node-write"} ELSE {} : g \in Groups(pre)}
+  \* a memory-bound scale-up decision whose request total is beyond 2^63 / 1e5 milli-bytes (memory unit 1 TiB, `drive -huge`)
+  \cup UNION {IF C06Applies(line, pre, g) /\ "memShift" \in DOMAIN line /\ line.memShift = 20 /\ "up" \in Bands(pre, g) /\ ReqMem(pre.groups[g]) >= 84
+              THEN {"C06:up-with-memory-total-beyond-int64-headroom"} ELSE {} : g \in Groups(pre)}
 
 -----------------------------------------------------------------------------
 \* C05 (controller level) — enough, and at most one more than needed, unless clamped
